@@ -358,10 +358,15 @@ Definition composite_key (c : cctl) : list N :=
 
 (* ================================================================== *)
 (* httpserver.Runner                                                   *)
-(* r.mutex is held by Reload from its first statement to its return, and by Run around boot()
-   and around stopServer(); neither of Run's two sections performs a machine call, so each is
-   one label enabled only while no Reload is in flight. setStateError = TransitionBool(Error),
-   and SetState(Error) only if that fails. *)
+(* r.mutex is held by Reload from its first statement to its return, and by Run around boot() and
+   from the Stopping transition to the end of stopServer().  boot() performs no machine call, so it
+   is one label enabled only while no Reload is in flight.  shutdown() (since /repo a31573a) takes
+   the mutex BEFORE Transition(Stopping) and keeps it across stopServer(): [HTStopping] needs the
+   mutex free (no Reload in flight) and no Reload can begin while Run is at [HPDown1]; the final
+   Transition(Stopped) is outside the mutex.  Legacy code (before a31573a) did Transition(Stopping)
+   outside the mutex: [http_stepx false]; [http_stop_locked] says which variant [http_step] - the one
+   the theorems and the correspondence runs are about - is.
+   setStateError = TransitionBool(Error), and SetState(Error) only if that fails. *)
 
 Inductive hpc :=
 | HP0 | HPCalled | HPBoot | HPBooted | HPSelect | HPDown0 | HPDown1 | HPDown2 | HPErrT | HPErrS
@@ -382,7 +387,10 @@ Definition h_set_run (c : hctl) (p : hpc) : hctl := mkH p (h_rl c) (h_stop c) (h
 Definition h_set_rl (c : hctl) (p : hrl) : hctl := mkH (h_run c) p (h_stop c) (h_cancel c) (h_srv c).
 Definition h_mu_free (c : hctl) : bool := match h_rl c with HRIdle => true | _ => false end.
 
-Definition http_step (c : hctl) (l : hcl) (cur : st) : option (option op * (bool -> hctl)) :=
+Definition http_stop_locked : bool := true.
+Definition h_run_holds_mu (c : hctl) : bool := match h_run c with HPDown1 => true | _ => false end.
+
+Definition http_stepx (fx : bool) (c : hctl) (l : hcl) (cur : st) : option (option op * (bool -> hctl)) :=
   match l with
   | HRunCall => match h_run c with HP0 => ret None (fun _ => h_set_run c HPCalled) | _ => None end
   | HTBooting =>
@@ -423,9 +431,10 @@ Definition http_step (c : hctl) (l : hcl) (cur : st) : option (option op * (bool
                   then ret None (fun _ => h_set_run c HPErrT) else None
     | _ => None
     end
-  | HTStopping =>      (* shutdown: Transition(Stopping), failure only logged *)
+  | HTStopping =>      (* shutdown: [mutex.Lock();] Transition(Stopping), failure only logged *)
     match h_run c with
-    | HPDown0 => ret (Some (OTrans Stopping)) (fun _ => h_set_run c HPDown1)
+    | HPDown0 => if negb fx || h_mu_free c
+                 then ret (Some (OTrans Stopping)) (fun _ => h_set_run c HPDown1) else None
     | _ => None
     end
   | HStopSrvOk =>
@@ -464,7 +473,11 @@ Definition http_step (c : hctl) (l : hcl) (cur : st) : option (option op * (bool
   | HSrvFail => ret None (fun _ => mkH (h_run c) (h_rl c) (h_stop c) (h_cancel c) true)
   | HReloadCall => ret None (fun _ => c)
   | HReloadRet => ret None (fun _ => c)
-  | HRlBegin => match h_rl c with HRIdle => ret None (fun _ => h_set_rl c HRStart) | _ => None end
+  | HRlBegin =>        (* r.mutex.Lock() *)
+    match h_rl c with
+    | HRIdle => if fx && h_run_holds_mu c then None else ret None (fun _ => h_set_rl c HRStart)
+    | _ => None
+    end
   | HRlT =>            (* failure: logged, return (no state change) *)
     match h_rl c with
     | HRStart => ret (Some (OTrans Reloading)) (fun ok => h_set_rl c (if ok then HRCfg else HREnd))
@@ -492,6 +505,8 @@ Definition http_step (c : hctl) (l : hcl) (cur : st) : option (option op * (bool
   | HRlErrS => match h_rl c with HRErrS => ret (Some SetErr) (fun _ => h_set_rl c HREnd) | _ => None end
   | HRlDone => match h_rl c with HREnd => ret None (fun _ => h_set_rl c HRIdle) | _ => None end
   end.
+
+Definition http_step := http_stepx http_stop_locked.
 
 Definition http_tok (l : hcl) : tokact :=
   match l with
